@@ -47,6 +47,14 @@ def make_device(kind: str, rng=None, *, length_units="um", xi=0.5, gamma=10.0, u
         if kind == "bar_hole":
             holes = [P("hole", points=circle(0.6 * s, points=17, center=(0.3 * s, 0.1 * s)))]
         probe_pts = [(-W / 4, 0.2 * s), (W / 4, -0.1 * s)]
+    elif kind == "Lhole":
+        # a non-convex hole given by its six corners: the mean of its vertices lies outside the hole
+        film = P("film", points=box(6.0 * s, 5.0 * s, points=45))
+        L6 = np.array([(0.0, 0.0), (2.6, 0.0), (2.6, 0.8), (0.8, 0.8), (0.8, 2.6), (0.0, 2.6)]) - np.array([1.3, 1.3])
+        holes = [P("slot", points=L6 * s)]
+        if terminals:
+            terms = [P("source", points=box(0.1 * s, 4.5 * s, center=(-3.0 * s, 0))), P("drain", points=box(0.1 * s, 4.5 * s, center=(3.0 * s, 0)))]
+        probe_pts = [(-2.2 * s, 1.5 * s), (2.2 * s, -1.5 * s)]
     elif kind == "ring":
         film = P("film", points=circle(2.0 * s, points=41))
         holes = [P("hole", points=circle(0.7 * s, points=21, center=(0.2 * s, 0)))]
